@@ -242,10 +242,13 @@ func streamGenesis() mc.GenesisSpec {
 }
 
 func c10Scenario() *Scenario {
-	s := &Scenario{Name: "streams", Genesis: streamGenesis(), KeyTimeNs: true, AfterTx: streamConservation}
+	s := &Scenario{Name: "streams", Genesis: streamGenesis(), KeyTimeNs: true, AfterTx: streamConservation, Tracked: []string{"L32:M"}}
 	s.Actions = streamActions(time.Second)
 	s.Actions = append(s.Actions,
 		Action{Name: "send(A->escrow,5nund)", Dt: time.Second, Txs: tx1(model.Msg{Kind: model.BankSend, From: "A", To: model.ModStr, Den: mc.Nund, Amt: "5"})},
+		// a receiver whose address is not 20 bytes long (module-derived, group-policy, interchain accounts)
+		Action{Name: "create(B->L32:M,90nund@1)", Dt: time.Second, Txs: tx1(model.Msg{Kind: model.StrCreate, From: "B", To: "L32:M", Den: mc.Nund, Amt: "90", Rate: 1})},
+		Action{Name: "cancel(B->L32:M)", Dt: time.Second, Txs: tx1(model.Msg{Kind: model.StrCancel, From: "B", To: "L32:M"})},
 		govOnce("gov(fee=0)", model.StrParams, "0.000000000000000000"),
 		govOnce("gov(fee=0.5)", model.StrParams, "0.500000000000000000"),
 		govOnce("gov(fee=1)", model.StrParams, "1.000000000000000000"),
